@@ -100,6 +100,15 @@ def ensure_makefile():
                        check=True, capture_output=True)
 
 
+def write_poison(path, why):
+    """A generated file whose translator failed: anything that imports it fails to build (fail-closed)."""
+    txt = "(* TRANSLATOR FAILED: " + why.replace("*)", "* )")[:600] + " *)\nDefinition translator_failed : False := I.\n"
+    old = open(path).read() if os.path.exists(path) else None
+    if old != txt:
+        with open(path, "w") as f:
+            f.write(txt)
+
+
 def forbidden_scan():
     """Gate: no Admitted/Axiom/... anywhere in the development (comments stripped)."""
     bad = []
@@ -206,6 +215,8 @@ class Check:
         except Exception as e:  # fail-closed
             self.translators[name] = f"failed: {e}"
             self.broken.append(("translator", name, f"{type(e).__name__}: {e}"))
+            with BuildLock():
+                write_poison(path, f"{type(e).__name__}: {e}")
             return False
         with BuildLock():
             old = open(path).read() if os.path.exists(path) else None
@@ -235,6 +246,7 @@ class Check:
             self.broken.append(("proof", prop_file, "forbidden construct in development: " + "; ".join(bad[:5])))
             return False
         with BuildLock():
+            self._refresh_other_gens()
             ensure_makefile()
             vfile = os.path.join(COQ, prop_file + ".v")
             os.utime(vfile, None)  # force re-check so that Print Assumptions output is fresh
@@ -296,6 +308,26 @@ class Check:
         if not ok:
             self.broken.append(("proof", f"coqchk {mod}", (f"unexpected axioms {bad_ax}; " if bad_ax else "") + (f"unsafe {unsafe}; " if unsafe else "") + out[-500:]))
         return ok
+
+    def _refresh_other_gens(self):
+        """Every generated file is regenerated from the CURRENT source tree before a build, not only the ones this check names:
+        a file left behind by a run against another tree must not leak into this one.  A translator that fails leaves a file that
+        does not compile, so exactly the proofs that depend on it break."""
+        from harness import gens
+        for name, fn in gens.ALL.items():
+            if name in self.translators:
+                continue
+            path = os.path.join(GEN, name + ".v")
+            try:
+                txt = fn()
+            except Exception as e:
+                write_poison(path, f"{type(e).__name__}: {e}")
+                self.notes.append(f"translator {name} (not used by this property) failed: {type(e).__name__}: {str(e)[:160]}")
+                continue
+            old = open(path).read() if os.path.exists(path) else None
+            if old != txt:
+                with open(path, "w") as f:
+                    f.write(txt)
 
     def coq_eval(self, name, text, timeout=600):
         """Compile a generated Cases file (kernel evaluation with vm_compute); returns stdout."""
